@@ -381,7 +381,7 @@ def m_ledgers(hist, rec):
         report(hist, "C03", "L1_supply", {"eq": "L1"}, "supply %d + rebase %d != L %d" % (supply, g.rebase_l, L), rec)
     routing_stable = all(p["channel"] == cfg(a)["protocol_chain_config"]["ibc_channel_id"] for p in a["ledger"]["pkts"])
     forced = getattr(hist, "forced_used", False)
-    if routing_stable and not forced:
+    if routing_stable and not forced and not getattr(hist, "rerouted", False):
         pend = q(a, "pending")
         own_x = bal(a, su.contract, lst)
         want_x = int(pend["batch_total_liquid_stake"]) + refundable(a, lst) + g.donated.get(lst, 0)
@@ -563,6 +563,15 @@ def m_flags(hist, rec):
                        "forced recovery with a repeated id re-sends %d instead of %d" % (tr[0]["coin"]["amount"], sum(by[x] for x in set(sel))), rec)
         if set(sel) & sent or len(set(sel)) != len(sel):
             hist.forced_used = True
+    # the operator re-routed the channel or changed the staked-asset denom: callbacks of packets sent
+    # before are ignored by the contract from then on, so the ledger equations (which assume the
+    # honest-operator clause "routing is stable") are not evaluated for the rest of the history --
+    # also after the operator switches back
+    a = rec["after"]
+    if var == "update_config" and a is not None and cfg(a) is not None and cfg(b) is not None:
+        pa, pb = cfg(a)["protocol_chain_config"], cfg(b)["protocol_chain_config"]
+        if pa["ibc_channel_id"] != pb["ibc_channel_id"] or pa["ibc_token_denom"] != pb["ibc_token_denom"]:
+            hist.rerouted = True
 
 
 def m_recover(hist, rec):
